@@ -903,3 +903,28 @@ mod tests {
         Ok(())
     }
 }
+
+/// Verification wrappers (cfg(iroh_verif) only): let a simulator run the real client side.
+#[cfg(all(iroh_verif, feature = "server", not(wasm_browser)))]
+pub mod verif {
+    use http::HeaderValue;
+    use iroh_base::SecretKey;
+
+    use super::{BytesStreamSink, Error, ExportKeyingMaterial, KeyMaterialClientAuth};
+
+    /// Runs the crate-private `clientside` handshake.
+    pub async fn clientside(
+        io: &mut (impl BytesStreamSink + ExportKeyingMaterial),
+        secret_key: &SecretKey,
+    ) -> Result<(), Error> {
+        super::clientside(io, secret_key).await.map(|_| ())
+    }
+
+    /// Builds the keying-material auth header an honest client sends, if it can export material.
+    pub fn client_auth_header(
+        secret_key: &SecretKey,
+        io: &impl ExportKeyingMaterial,
+    ) -> Option<HeaderValue> {
+        KeyMaterialClientAuth::new(secret_key, io).map(KeyMaterialClientAuth::into_header_value)
+    }
+}
